@@ -87,3 +87,49 @@ func HarnessC03Verify() {
 	}
 	verifReach("C03.Verify")
 }
+
+// HarnessC03Forest: the same adversarial claim against the forests' own verify methods, on states
+// reached by an honest history: Pollard.Verify, MapPollard.Verify (full), and
+// MapPollard.VerifyPartialProof on the partial forest (which completes the proof from its own
+// nodes).  which: 1 Pollard, 2 full map, 3 partial map.
+func HarnessC03Forest() {
+	w := newWorld()
+	w.history("C03.history", false)
+	v := w.rm.view()
+	tg, hs, pf := c03Claim(w.rm)
+	proof := Proof{Targets: tg, Proof: pf}
+	// the stand-alone verifier's root indexes identify the wrong-tree carve-out (F-C03-2)
+	idxs, errS := Verify(w.st, hs, proof)
+	which := verifParam("which", 1)
+	var err error
+	switch which {
+	case 1:
+		err = w.p.Verify(hs, proof, false)
+	case 2:
+		err = w.full.Verify(hs, proof, false)
+	case 3:
+		err = w.part.VerifyPartialProof(tg, hs, pf, false)
+	}
+	if err == nil {
+		if which != 3 {
+			// same algorithm: the stand-alone verifier must agree on acceptance
+			verifAssert(errS == nil, "C03.forest.agrees-with-Verify")
+			if errS == nil {
+				c03CheckClaim(v, tg, hs, idxs, "C03.forest.claim-true")
+			}
+		} else {
+			// the partial forest completes the proof itself; wrong-tree carve-out cannot be read off
+			// Verify's indexes, so it is evaluated on the geometry alone: a claim is in the carve-out
+			// when its hash is the true hash of a root of ANOTHER tree than the one its position lies in
+			for i := range tg {
+				ex, h := v.hashAtSym(tg[i])
+				otherRoot := false
+				for ti := range v.roots {
+					otherRoot = verifIteBool(verifIteBool(v.inSpanSym(ti, tg[i]), false, hs[i] == v.roots[ti]), true, otherRoot)
+				}
+				verifAssertKF(verifIteBool(ex, h == hs[i], false), "C03.partial.claim-true", "F-C03-2", otherRoot)
+			}
+		}
+	}
+	verifReach("C03.forest")
+}
